@@ -48,11 +48,25 @@ SHIMS = ["math.isnan/isinf/isfinite dispatch on proxies", "asyncio.wait inside _
          "async_solipsism virtual-time event loop, real frequenz.channels Broadcast/ChannelRegistry", "logging disabled"]
 
 
-def run_loop(coro):
+class Livelock(BaseException):
+    """The event loop made no progress in wall-clock time (code under test spins without ever blocking)."""
+
+
+def _alarm(signum, frame):
+    raise Livelock()
+
+
+def run_loop(coro, wall_limit_s=20):
+    import signal
+
     loop = async_solipsism.EventLoop()
+    old = signal.signal(signal.SIGALRM, _alarm)
+    signal.setitimer(signal.ITIMER_REAL, wall_limit_s)
     try:
         return loop.run_until_complete(coro)
     finally:
+        signal.setitimer(signal.ITIMER_REAL, 0)
+        signal.signal(signal.SIGALRM, old)
         try:
             pend = [t for t in asyncio.all_tasks(loop) if not t.done()]
             for t in pend:
